@@ -331,7 +331,17 @@ void interval1Body(vf::Ctx & c)
 
 // ---------------------------------------------------------------------------------------------------------
 // point sets: extents, centroid, preconditioning scale
-struct Cloud {std::vector<std::array<double, 3>> pts; int n;};
+struct Cloud {std::vector<std::array<double, 3>> pts; int n; bool degenerate = false;};
+
+// (drawn after every older draw so that older tapes stay replayable) one point exactly at the origin: a "null" sensor
+// return is still a point of the set
+void maybeInsertOrigin(vf::Ctx & c, Cloud & cl)
+{
+  if (c.s.flag("contains_the_origin_point", 1, 6) && !cl.degenerate) {
+    cl.pts[static_cast<size_t>(c.s.i("origin_point_slot", 0, 999)) % cl.pts.size()] = std::array<double, 3>{0.0, 0.0, 0.0};
+    c.label("set-contains-the-origin-point");
+  }
+}
 
 Cloud genCloud(vf::Ctx & c)
 {
@@ -362,6 +372,7 @@ Cloud genCloud(vf::Ctx & c)
     if (degenerate) {p = first;}
     cl.pts.push_back(p);
   }
+  cl.degenerate = degenerate;
   static const char * names[] = {"straddling-origin", "all-negative", "all-positive", "per-axis-signs", "far-from-origin"};
   c.label(names[octant]);
   if (degenerate || cl.n == 1) {c.label("degenerate(single location)");}
@@ -431,6 +442,7 @@ void pointSetBody(vf::Ctx & c)
   int type = static_cast<int>(c.s.i("point_type", 0, 7));
   bool reused = c.s.flag("preconditioner_object_reused");
   if (reused) {c.label("preconditioner-object-reused");}
+  maybeInsertOrigin(c, cl);
   c.commit();
   switch (type) {
     case 0: c.label("Vector2f"); preconditionerOn<Eigen::Vector2f>(c, cl, "Vector2f", reused); break;
@@ -497,6 +509,7 @@ void containerBody(vf::Ctx & c)
 {
   Cloud cl = genCloud(c);
   int kind = static_cast<int>(c.s.i("container", 0, 5));
+  maybeInsertOrigin(c, cl);
   c.commit();
   switch (kind) {
     case 0: c.label("vector<Array2d>"); containerExtents<VectorOfEigenVector<Eigen::Array2d>>(c, cl, "vector<Array2d>"); break;
